@@ -152,10 +152,18 @@ impl Drop for Server {
 
 /// Run one case in a fresh child process.
 pub fn run_in_child(engine: &str, scenario: Value, hard_ms: u64) -> Outcome {
-  match Server::start() {
-    Ok(mut s) => s.job(engine, scenario, hard_ms),
-    Err(e) => Outcome::Infra(e),
+  // process creation can fail transiently on a loaded machine: retry before giving up
+  let mut last = String::new();
+  for attempt in 0..4 {
+    if attempt > 0 {
+      std::thread::sleep(Duration::from_millis(200 * attempt));
+    }
+    match Server::start() {
+      Ok(mut s) => return s.job(engine, scenario, hard_ms),
+      Err(e) => last = e,
+    }
   }
+  Outcome::Infra(last)
 }
 
 /// thread names the watcher treats as "threads of the case"
